@@ -897,6 +897,7 @@ def run(ctx):
         cov['bound'] += ' -- RESTRICTED by VERIF_C06_GROUPS (development run)'
     elif missing:
         raise AssertionError(f'depth-2 matrix incomplete: {missing} cells neither visited nor inexpressible')
+    total.violations.sort(key=lambda v: (v.fingerprint, len(v.case['text'])))
     return Result(cov, total.violations, assumptions=[
         'only ASTs that have a BQL text are generated (non-negative finite numerics, no NULL in lists, primaries under attribute/subscript, '
         'bare integers in GROUP/ORDER/PIVOT BY are indexes, identifiers are lower-case non-reserved words, strings hold one kind of quote)',
